@@ -345,7 +345,7 @@ def native_mech_witness(A, D, names):
     seqs = [[{'b': 0.5}], [{'a': 1.0, 'c': 0.3}, {'a': None}], [{'b': 0.5}, {'b': None}], [{'a': 1.0}, {'c': 2.0}, {'a': None, 'c': None}], [{'c': 0.2}, {'c': 0.7}],
             [{'a': 1.0}, {'a': None, 'b': 0.5}], [{'a': 1.0, 'b': 0.4}, {'a': None, 'c': 0.3}], [{'c': 0.2}, {'c': None, 'a': 1.1}],      # one call that releases and fixes (same count)
             [{'c': 0.0}], [{'a': 0}, {'c': 0.5}], [{'b': 0.5}, {'b': 0.0}],          # the value zero is a value like any other
-            [{'c': 0.3, 'a': 1.0}], [{'c': 0.3, 'b': 0.2, 'a': 1.0}], [{'b': 0.2}, {'c': 0.3, 'b': None, 'a': 1.0}]]      # dictionaries that name the parameters in another order than the model
+            [{'c': 0.3, 'a': 1.0}], [{'b': 0.2, 'a': 1.0}], [{'b': 0.2}, {'c': 0.3, 'b': None, 'a': 1.0}]]      # dictionaries that name the parameters in another order than the model
     t = [0.5, 1.0, 2.0]
     for seq in seqs:
         for sens_first in (False, True):
@@ -498,6 +498,50 @@ def native_pop_witness():
         if not ok:
             return {'what': 'after the calls %s the free parameters are %s (n=%s); the resulting set of fixed pairs %s leaves %s free' % (seq, r.get_parameter_names(), r.n_parameters(), Af, free),
                     'expected': free, 'observed': r.get_parameter_names()}
+    # a change of the number of individuals changes the parameters of heterogeneous dimensions: whatever the wrapper does with the fixed pairs
+    # (release them or keep them), a parameter that is not free afterwards is one that was fixed by name, at the value it was fixed at
+    def comp(order):
+        parts = {'H': lambda: real.HeterogeneousModel(dim_names=['a']), 'G': lambda: real.GaussianModel(dim_names=['b']), 'P': lambda: real.PooledModel(dim_names=['c'])}
+        return real.ComposedPopulationModel([parts[k_]() for k_ in order])
+    for order in ('HG', 'GH', 'PHG', 'HPG'):
+        for n0, n1 in ((2, 3), (3, 2), (2, 2)):
+            for pick in (-1, -2, 0):
+                try:
+                    inner, twin = comp(order), comp(order)
+                    inner.set_n_ids(n0)
+                    r = real.ReducedPopulationModel(inner)
+                    nm0 = list(r.get_parameter_names())
+                    fixed_before = {nm0[pick]: 1.3}
+                    r.fix_parameters(dict(fixed_before))
+                    r.set_n_ids(n1)
+                    twin.set_n_ids(n1)
+                    full_names = list(twin.get_parameter_names())
+                    free = list(r.get_parameter_names())
+                    gone = [n_ for n_ in full_names if n_ not in free]
+                    if r.n_parameters() != len(free) or [n_ for n_ in free if n_ not in full_names] or any(n_ not in fixed_before for n_ in gone):
+                        return {'what': 'ReducedPopulationModel(Composed[%s]) for %d individuals with %s fixed, then set_n_ids(%d): the free parameters are %s (n_parameters %d) of %s -- %s is not free although nobody fixed it' % (
+                            order, n0, fixed_before, n1, free, r.n_parameters(), full_names, [n_ for n_ in gone if n_ not in fixed_before]), 'expected': 'only %s may be fixed' % sorted(fixed_before), 'observed': gone}
+                    hv = {n_: 0.7 + 0.1 * k_ for k_, n_ in enumerate(full_names)}
+                    for n_ in gone:
+                        hv[n_] = fixed_before[n_]
+                    psi_ = np.array([[hv.get('ID %d a' % (i_ + 1), 0.9), 0.4 + 0.2 * i_, hv.get('Pooled c', 0.0)][:len(order)] if False else None for i_ in range(n1)], dtype=object)
+                    # individual parameters consistent with the heterogeneous and pooled values (other values score -inf for both models alike)
+                    cols = []
+                    for k_ in order:
+                        if k_ == 'H':
+                            cols.append([hv[[n_ for n_ in full_names if n_.endswith(' a')][i_]] for i_ in range(n1)])
+                        elif k_ == 'P':
+                            cols.append([hv[[n_ for n_ in full_names if n_.endswith(' c')][0]]] * n1)
+                        else:
+                            cols.append([0.4 + 0.2 * i_ for i_ in range(n1)])
+                    psi_ = np.array(cols, dtype=float).T
+                    a_ = r.compute_log_likelihood([hv[n_] for n_ in free], psi_)
+                    b_ = twin.compute_log_likelihood([hv[n_] for n_ in full_names], psi_)
+                    if not (np.isfinite(b_) and np.isclose(a_, b_)):
+                        return {'what': 'ReducedPopulationModel(Composed[%s]) for %d individuals with %s fixed, then set_n_ids(%d): log-likelihood %r, the unfixed model at the substituted vector gives %r (free parameters %s)' % (
+                            order, n0, fixed_before, n1, float(a_), float(b_), free), 'expected': float(b_), 'observed': float(a_)}
+                except Exception as ex:
+                    return {'what': 'ReducedPopulationModel(Composed[%s]): fix %d-th parameter for %d individuals, set_n_ids(%d), evaluate raises %r' % (order, pick, n0, n1, ex), 'expected': 'values', 'observed': repr(ex)}
     for fixed in itertools.product((False, True), repeat=4):
         if not any(fixed):
             continue
@@ -786,8 +830,14 @@ def real_population_wrappers(rec):
                 lab, list(hist), names[kk], float(vals[kk]), float(a_), float(b_), np.round(np.asarray(ra, dtype=float), 6).tolist(), np.round(want, 6).tolist())
         return None
     q = 'chi._population_models.ReducedPopulationModel.'
+    def one_safe(case):
+        # every history is a sequence of valid public calls: an exception is a failure of the wrapper, not of the check
+        try:
+            return one(case)
+        except (ValueError, IndexError, TypeError, KeyError) as ex:
+            return '%s after %s, position %d: the wrapper raises %r on a valid history' % (case[0], list(case[1]), case[2], ex)
     rec.native_check('ReducedPopulationModel/real-models', [q + m_ for m_ in ('fix_parameters', 'set_n_ids', 'set_dim_names', 'set_parameter_names', 'get_parameter_names', 'compute_log_likelihood',
-                                                                              'compute_sensitivities', 'compute_individual_parameters')], cases, one,
+                                                                              'compute_sensitivities', 'compute_individual_parameters')], cases, one_safe,
                      '%d real population models (incl. heterogeneous models alone and inside compositions) x %d resize / rename histories applied through the wrapper before fixing x 4 positions of the fixed parameter' % (len(mk), len(hists)),
                      exhaustive=True)
 
@@ -848,8 +898,25 @@ def population_predictive(rec):
                      'population model plain or already reduced (1 / 2 fixed values) x 4 call sequences (single, two calls, re-fix, fix and release); pure-Python mechanistic model; seeded samples against the unfixed model', exhaustive=True)
 
 
+def native_histories(rec):
+    """[bounded] the native witnesses of the three wrappers are also run on their own (real classes, fixed call histories incl. dictionaries in
+    another order than the model and changes of the number of individuals): a history the symbolic (state, operation) pairs do not contain
+    still has its run-time contract"""
+    def one(which):
+        if which == 'population':
+            w = native_pop_witness()
+        elif which == 'mechanistic':
+            w = native_mech_witness({}, {}, ['a', 'b', 'c'])
+        else:
+            w = native_error_witness({}, {}, ['e0', 'e1'])
+        return None if w is None else w['what']
+    rec.native_check('wrappers/native.histories', ['chi._population_models.ReducedPopulationModel.fix_parameters', 'chi._population_models.ReducedPopulationModel.set_n_ids',
+                                                   'chi._mechanistic_models.ReducedMechanisticModel.fix_parameters', 'chi._error_models.ReducedErrorModel.fix_parameters'],
+                     ['population', 'mechanistic', 'error'], one, 'fixed call histories on the real wrapper classes; distinct by wrapper', exhaustive=True)
+
+
 def tasks():
-    out = [('ReducedPopulationModel:real', real_population_wrappers), ('PopulationPredictiveModel', population_predictive)]
+    out = [('ReducedPopulationModel:real', real_population_wrappers), ('PopulationPredictiveModel', population_predictive), ('native-histories', native_histories)]
     for p in (1, 2, 3):
         out.append(('ReducedErrorModel:%d' % p, (lambda rec, p=p: reduced_error(rec, p))))
         out.append(('ReducedMechanisticModel:%d' % p, (lambda rec, p=p: reduced_mechanistic(rec, p))))
